@@ -1353,7 +1353,9 @@ def add_invariant_checks(cls: ClassT) -> None:
             # Otherwise, we would copy the inherited function into this class and thus shadow
             # the functions of the classes that come later in the method resolution order.
             if wrapper is not init_func:
-                setattr(cls, init_func.__name__, wrapper)
+                # The constructor is looked up as ``__init__`` no matter how the function is called
+                # (*e.g.*, ``__init__ = some_helper``), so re-bind it under that very name.
+                setattr(cls, "__init__", wrapper)
 
     for name, func in names_funcs:
         wrapper = _decorate_with_invariants(func=func, is_init=False)
